@@ -80,6 +80,7 @@ def run(ctx: Ctx) -> None:
     flag_pack(ctx, rows, ok_cases)
     decimal_adjust(ctx, rows, ok_cases)
     counted_bodies(ctx, rows, ok_cases)
+    carry_chain(ctx, rows, ok_cases)
 
 
 # ---------------------------------------------------------------------------
@@ -665,3 +666,26 @@ def counted_bodies(ctx: Ctx, rows: dict, cases: list, prefix: str = "C04.10") ->
         ctx.violation(rule, key_of(isa.INSTR_PY, f"opcode 0x{op:02X} {r.cls}", what.split(" (")[0]),
                       f"opcode 0x{op:02X} ({r.name}): {what} ({len(cs)} cases); text `{''.join(t for _k, t in cs[0].tokens)}`", f"{isa.OPTABLE}:{r.ln}", il=cs[0].il[:8])
     ctx.instance(prefix + "/counted-bodies", "data accesses / address steps / auto-modify registers inside I-counted loops", n, 120)
+
+
+def carry_chain(ctx: Ctx, rows: dict, cases: list) -> None:
+    """With-carry arithmetic: a flag-setting add/sub of width w must not take `add(w, x, flag C)` as an operand - that inner sum wraps at
+    the same width and its carry is lost (x = all ones, C = 1 gives 0 and no carry)."""
+    n = 0
+    groups: dict[tuple, list] = collections.defaultdict(list)
+    for c in cases:
+        for st in c.il_terms:
+            for t in ilfacts.walk(st):
+                if t.ctor in ("add", "sub") and len(t.args) >= 4 and t.args[3] not in (None, "", 0):
+                    n += 1
+                    w = t.args[0]
+                    for operand in t.args[1:3]:
+                        if isinstance(operand, Term) and operand.ctor == "add" and operand.args[0] == w and any(x.ctor == "flag" for x in ilfacts.walk(operand)):
+                            groups[(rows[c.opcode].cls, t.ctor)].append(c)
+    for (cls, op), cs in sorted(groups.items()):
+        ops = sorted({c.opcode for c in cs})
+        r = rows[ops[0]]
+        ctx.violation("C04.11/carry-chain", key_of(isa.INSTR_PY, cls, f"{op} of (operand + C) at the operand width"),
+                      f"{cls} (opcodes {[hex(o) for o in ops[:8]]}): the flag-setting {op} takes `operand + C` computed at the same width as its second input; "
+                      f"with operand = all ones and C = 1 that sum wraps to 0 and the carry/borrow out is lost", f"{isa.OPTABLE}:{r.ln}", il=cs[0].il[:3])
+    ctx.instance("C04.11/carry-chain", "flag-setting add/sub terms inspected for a same-width `x + C` operand", n, 150)
